@@ -1069,17 +1069,20 @@ class ParallelFilter(FilterList):
     return reduce(operator.add, (filt(arg0, *args[1:], **kwargs)
                                  for filt in self.callables))
 
-  @property
-  def numpoly(self):
+  def _sum(self):
+    """ The parts (any linear filter or filter list) added as ZFilters. """
     if not self.is_linear():
       raise AttributeError("Non-linear filter")
-    return reduce(operator.add, self).numpoly
+    return reduce(operator.add, (ZFilter(filt.numpoly, filt.denpoly)
+                                 for filt in self.callables))
+
+  @property
+  def numpoly(self):
+    return self._sum().numpoly
 
   @property
   def denpoly(self):
-    if not self.is_linear():
-      raise AttributeError("Non-linear filter")
-    return reduce(operator.add, self).denpoly
+    return self._sum().denpoly
 
   @elementwise("freq", 1)
   def freq_response(self, freq):
